@@ -646,10 +646,10 @@ PROPS["C14"] = dict(family="imports", level="model_checking", design_ref="4.4",
                     technique="TLA+ expansion of imports (ExpandFile: importing is inlining, under a key with every path prefixed; the stack of files being imported marks a cycle) on top of D2IR's Apply; TLC expands and folds every generated file set and compares with what the real compiler made of it from an in-memory file system, plus the inlined twin compiled by the real compiler",
                     base=dict(quick=[dict(module="D2IR", cfg="D2IR_quick.cfg", workers=8)], thorough=[dict(module="D2IR", cfg="D2IR_quick.cfg", workers=8)]),
                     rule=("the space of file sets is FIXED (set #i from seed i, 8,000 sets; quick takes the 1,000 VERIF_SEED selects): 1-4 files (index.d2, f2.d2, sub/f3.d2, sub/deep/f4.d2 in shuffled roles) of 0-3 declarations from the ir alphabet and 0-2 imports each, "
-                          "written as  ...@f ,  key: @f  or  key: {...@f}  at random positions, with the path spelled bare, with ./ or ../ and with or without the .d2 extension; acyclic sets import later files only (nested chains up to length 4), "
+                          "written as  ...@f ,  key: @f ,  key: {...@f}  or  key: @f.sel  (one key of the file) at random positions, with the path spelled bare, with ./ or ../ and with or without the .d2 extension; acyclic sets import later files only (nested chains up to length 4), "
                           "20% of the sets may import any file including themselves (cycles of every length). Non-trivial: the set contains an import."),
                     exhaustive=dict(quick=True, thorough=True),
-                    assumptions=["imports of a single key of a file (@f.key), relative links and icons, and globs in imported files are not generated", "explicit label fields, indexed deletions and globs are left out of the alphabet (see C15)",
+                    assumptions=["relative links and icons and globs in imported files are not generated; the import of a single key (key: @f.sel) is generated in its non-spread form and has no textual twin", "explicit label fields, indexed deletions and globs are left out of the alphabet (see C15)",
                                  "the order of objects and connections is not compared", "termination: 20 s per compile"],
                     text="ExpandFile is the specification of importing; the cycle rule is the compiler's own stack discipline stated in TLA+.", note="Trusted: TLC, Json module, the file writer in harness/cmd/vdrive/imports.go, testing/fstest.MapFS.")
 
